@@ -8,6 +8,8 @@ namespace NakenVerif.Listing
 open NakenVerif.Memory
 open NakenVerif.Core.Directives
 
+variable {m0 : Memory}
+
 /-- the ghost lists only grow -/
 structure LSt.Le (a b : LSt) : Prop where
   writes : ∃ w, b.writes = a.writes ++ w
@@ -102,14 +104,14 @@ def Stmt.LineOk : Stmt → Prop
 
 theorem execSimple_inv (cfg : Cfg) (hlist : cfg.listing = true) (hf : ∀ m, cfg.fmt.SoundOn m) (ls ls' : LSt) (s : Simple)
     (h : execSimple cfg ls s = .ok ls') (hl : s.LineOk)
-    (hnd : ls'.writes.Nodup) (hnw : ls'.nowrap = true) (hex : ∀ c ∈ ls'.calls, c.Exact) (inv : Inv ls) : Inv ls' := by
+    (hnd : ls'.writes.Nodup) (hnw : ls'.nowrap = true) (hex : ∀ c ∈ ls'.calls, c.Exact) (inv : Inv m0 ls) : Inv m0 ls' := by
   cases s with
   | dir d => exact exec_dir_inv cfg ls ls' d h hnd inv
   | instr line listed es => exact exec_instr_inv cfg hlist hf ls ls' line listed es h hl hnd hnw hex inv
 
 theorem execSimples_inv (cfg : Cfg) (hlist : cfg.listing = true) (hf : ∀ m, cfg.fmt.SoundOn m) :
     ∀ (ss : List Simple) (ls ls' : LSt), execSimples cfg ls ss = .ok ls' → (∀ s ∈ ss, s.LineOk) →
-      ls'.writes.Nodup → ls'.nowrap = true → (∀ c ∈ ls'.calls, c.Exact) → Inv ls → Inv ls' := by
+      ls'.writes.Nodup → ls'.nowrap = true → (∀ c ∈ ls'.calls, c.Exact) → Inv m0 ls → Inv m0 ls' := by
   intro ss
   induction ss with
   | nil => intro ls ls' h _ _ _ _ inv; simp only [execSimples] at h; injection h with h; subst h; exact inv
@@ -126,7 +128,7 @@ theorem execSimples_inv (cfg : Cfg) (hlist : cfg.listing = true) (hf : ∀ m, cf
 theorem exec_rep_inv (cfg : Cfg) (hlist : cfg.listing = true) (hf : ∀ m, cfg.fmt.SoundOn m) (ls ls' : LSt)
     (line : BitVec 32) (listed : Bool) (count : Nat) (body : List Simple)
     (h : execStmt cfg ls (.rep line listed count body) = .ok ls') (hl : (Stmt.rep line listed count body).LineOk)
-    (hnd : ls'.writes.Nodup) (hnw : ls'.nowrap = true) (hex : ∀ c ∈ ls'.calls, c.Exact) (inv : Inv ls) : Inv ls' := by
+    (hnd : ls'.writes.Nodup) (hnw : ls'.nowrap = true) (hex : ∀ c ∈ ls'.calls, c.Exact) (inv : Inv m0 ls) : Inv m0 ls' := by
   simp only [execStmt] at h
   split at h
   · cases h
@@ -183,14 +185,14 @@ theorem exec_rep_inv (cfg : Cfg) (hlist : cfg.listing = true) (hf : ∀ m, cfg.f
 
 theorem execStmt_inv (cfg : Cfg) (hlist : cfg.listing = true) (hf : ∀ m, cfg.fmt.SoundOn m) (ls ls' : LSt) (s : Stmt)
     (h : execStmt cfg ls s = .ok ls') (hl : s.LineOk)
-    (hnd : ls'.writes.Nodup) (hnw : ls'.nowrap = true) (hex : ∀ c ∈ ls'.calls, c.Exact) (inv : Inv ls) : Inv ls' := by
+    (hnd : ls'.writes.Nodup) (hnw : ls'.nowrap = true) (hex : ∀ c ∈ ls'.calls, c.Exact) (inv : Inv m0 ls) : Inv m0 ls' := by
   cases s with
   | simple s => exact execSimple_inv cfg hlist hf ls ls' s h hl hnd hnw hex inv
   | rep line listed count body => exact exec_rep_inv cfg hlist hf ls ls' line listed count body h hl hnd hnw hex inv
 
 theorem execStmts_inv (cfg : Cfg) (hlist : cfg.listing = true) (hf : ∀ m, cfg.fmt.SoundOn m) :
     ∀ (ss : List Stmt) (ls ls' : LSt), execStmts cfg ls ss = .ok ls' → (∀ s ∈ ss, s.LineOk) →
-      ls'.writes.Nodup → ls'.nowrap = true → (∀ c ∈ ls'.calls, c.Exact) → Inv ls → Inv ls' := by
+      ls'.writes.Nodup → ls'.nowrap = true → (∀ c ∈ ls'.calls, c.Exact) → Inv m0 ls → Inv m0 ls' := by
   intro ss
   induction ss with
   | nil => intro ls ls' h _ _ _ _ inv; simp only [execStmts] at h; injection h with h; subst h; exact inv
@@ -205,8 +207,9 @@ theorem execStmts_inv (cfg : Cfg) (hlist : cfg.listing = true) (hf : ∀ m, cfg.
     · cases h
 
 /-- the state the second pass starts from satisfies the invariant, whatever the first pass left in memory -/
-theorem inv_start (st : St) (hp : st.pass = 2) : Inv { st, calls := [], writes := [], quiet := [], nowrap := true } := by
-  refine ⟨hp, ?_, ?_, ?_, ?_, ?_⟩
+theorem inv_start (st : St) (hp : st.pass = 2) :
+    Inv st.memory { st, calls := [], writes := [], quiet := [], nowrap := true } := by
+  refine ⟨hp, ?_, ?_, ?_, ?_, ?_, Or.inl rfl, Or.inl rfl⟩
   · intro c h; cases h
   · intro a h; simp [shownAddrs] at h
   · intro a h; simp [shownAddrs] at h
